@@ -189,13 +189,14 @@ class Tree:
                 self.moved.append(f"{k} -> {best} ({score:.2f})")
 
     def _normalise_bodies(self):
-        from .normalise import inline_aliases, loops_to_comprehensions, positive_ifexps, unroll_literal_loops, updates_to_loops, inline_single_use_temps, forward_attr_stores, searches_to_loops, genexp_loops, split_webs, ifexp_to_if, default_none_gets
+        from .normalise import inline_aliases, loops_to_comprehensions, positive_ifexps, unroll_literal_loops, updates_to_loops, inline_single_use_temps, forward_attr_stores, searches_to_loops, genexp_loops, split_webs, ifexp_to_if, default_none_gets, while_true_breaks
 
         self.normalised: List[str] = []
         for f in list(self.funcs.values()):
             if f.module.is_test():
                 continue
             default_none_gets(f.node)
+            while_true_breaks(f.node)
             positive_ifexps(f.node)
             inline_single_use_temps(f.node)
             ifexp_to_if(f.node)
